@@ -53,14 +53,11 @@ def makeDefaultQuantizer : DefaultMode → QRec
 
 /-! ### `make_quantizer` applied to a qtools record sitting on a graph edge
 
-`quantizer_lookup` maps the impl classes StochasticBinary, Bernoulli, QuantizedTanh and
-QuantizedUlaw to `StochasticTernary` (as written), so re-making such a record yields the ternary
-template; every other impl class is deep-copied. -/
-def remake (q : QRec) : QRec :=
-  match q.name with
-  | .stochastic_binary | .bernoulli | .quantized_tanh | .quantized_ulaw =>
-    { tTernary with name := .stochastic_ternary }
-  | _ => q
+The `quantizer_lookup` rows "for the use in GraphUpdateEdge" map every impl class to itself
+(since the repair "QuantizerFactory maps every qtools quantizer class to itself"; before it
+StochasticBinary, Bernoulli, QuantizedTanh and QuantizedUlaw were mapped to StochasticTernary),
+so `_make_quantizer_util` takes the `clone_quantizer` (deep copy) path for every record. -/
+def remake (q : QRec) : QRec := q
 
 /-! ### auto_po2 adjustment -/
 
